@@ -4,7 +4,11 @@ import torch
 import os
 import logging
 import sys
+import inspect
 from pathlib import Path
+from typing import Any
+
+from pulser.backend import Observable
 
 unix_like = os.name != "nt"
 if unix_like:
@@ -48,6 +52,23 @@ def init_logging(log_level: int, log_file: Path | None) -> logging.Logger:
         logger.removeHandler(h)
     logger.addHandler(handler)
     return logger
+
+
+def aggregation_kwargs(method: str) -> dict[str, Any]:
+    """Keyword arguments telling `pulser.backend.Observable.__init__` how
+    `Results.aggregate` should combine the values of an observable.
+
+    pulser-core >= 1.9 requires `default_aggregation_method`,
+    pulser-core 1.8 does not accept it.
+
+    Args:
+        method: name of a `pulser.backend.AggregationMethod` member, e.g. "SKIP".
+    """
+    if "default_aggregation_method" not in inspect.signature(Observable).parameters:
+        return {}
+    from pulser.backend import AggregationMethod
+
+    return {"default_aggregation_method": AggregationMethod[method]}
 
 
 def deallocate_tensor(t: torch.Tensor) -> None:
